@@ -153,13 +153,21 @@ class EnumS(Shape):
     aliases are identified, so value equality is member identity).  `members` = list of
     (canonical name, python value), filled from the live class."""
 
-    def __init__(self, key, value_shape, members):
+    def __init__(self, key, value_shape, members, ordinal=False):
         self.key = key
         self.value_shape = value_shape
         self.members = members
+        # ordinal=True: represented by the member's position (an Int) instead of its value; used
+        # for string-valued enums so that maps keyed by them are integer-indexed arrays.  `.value`
+        # is then the table lookup position -> value (read from the live class).
+        self.ordinal = ordinal
+
+    @property
+    def rep_shape(self):
+        return INT if self.ordinal else self.value_shape
 
     def sorts(self):
-        return self.value_shape.sorts()
+        return self.rep_shape.sorts()
 
     def __eq__(self, o):
         return isinstance(o, EnumS) and self.key == o.key
@@ -422,7 +430,7 @@ def _from(s, it) -> Val:
         arrs = [next(it) for _ in range(n)]
         return Val(s, (arrs, next(it)))
     if isinstance(s, EnumS):
-        return Val(s, _from(s.value_shape, it))
+        return Val(s, _from(s.rep_shape, it))
     if isinstance(s, UnionS):
         tag = next(it)
         return Val(s, (tag, [_from(a, it) for a in s.alts]))
@@ -466,8 +474,34 @@ def const_of_py(pyv, shape: Shape) -> Val:
     if isinstance(shape, NoneS):
         return VNONE
     if isinstance(shape, EnumS):
+        if shape.ordinal:
+            pos = [i for i, (_, pv) in enumerate(shape.members) if pv == pyv.value]
+            return Val(shape, vint(pos[0]))
         return Val(shape, const_of_py(pyv.value, shape.value_shape))
     raise TypeError((pyv, shape))
+
+
+def enum_value(v: Val) -> Val:
+    """`.value` of an enum value"""
+    s = v.shape
+    if not s.ordinal:
+        return v.d
+    res = const_of_py(s.members[-1][1], s.value_shape)
+    for i in range(len(s.members) - 2, -1, -1):
+        res = ite(v.d.d == i, const_of_py(s.members[i][1], s.value_shape), res)
+    return res
+
+
+def enum_from_value(shape: EnumS, value: Val):
+    """(member Val, z3 condition 'value is a member value')"""
+    if not shape.ordinal:
+        ev = Val(shape, coerce(value, shape.value_shape))
+        return ev, wf(ev)
+    conds = [raw_eq(coerce(value, shape.value_shape), const_of_py(pv, shape.value_shape)) for _, pv in shape.members]
+    pos = z3.IntVal(-1)
+    for i in range(len(conds) - 1, -1, -1):
+        pos = z3.If(conds[i], z3.IntVal(i), pos)
+    return Val(shape, vint(pos)), z3.Or(conds)
 
 
 def wf(v: Val):
@@ -484,6 +518,8 @@ def wf(v: Val):
     if isinstance(s, SeqS):
         return v.d[1] >= 0
     if isinstance(s, EnumS):
+        if s.ordinal:
+            return z3.And(v.d.d >= 0, v.d.d < len(s.members))
         return z3.Or([raw_eq(v.d, const_of_py(pv, s.value_shape)) for _, pv in s.members])
     if isinstance(s, UnionS):
         tag = v.d[0]
